@@ -8,7 +8,6 @@ import (
 	"context"
 	"errors"
 	"fmt"
-	"net/http/httptest"
 	"sort"
 	"strings"
 	"sync"
@@ -25,6 +24,7 @@ import (
 	ocispec "github.com/opencontainers/image-spec/specs-go/v1"
 	"pgregory.net/rapid"
 
+	"verif/harness/internal/memnet"
 	"verif/harness/vt"
 )
 
@@ -284,9 +284,9 @@ func run(s Script, v *vt.V) {
 			}
 			cur = ociunify.New(cur, monitored{m1, fmt.Sprintf("second member of layer %d", i), log}, &ociunify.Options{ReadPolicy: pol})
 		case "http":
-			srv := httptest.NewServer(ociserver.New(cur, &ociserver.Options{MaxListPageSize: l.MaxPage, OmitLinkHeaderFromResponses: l.OmitLink}))
+			srv := memnet.NewServer(ociserver.New(cur, &ociserver.Options{MaxListPageSize: l.MaxPage, OmitLinkHeaderFromResponses: l.OmitLink}))
 			closers = append(closers, srv.Close)
-			c, err := ociclient.New(strings.TrimPrefix(srv.URL, "http://"), &ociclient.Options{Insecure: true, ListPageSize: l.Page})
+			c, err := ociclient.New(srv.Host, &ociclient.Options{Insecure: true, ListPageSize: l.Page, Transport: srv.Transport()})
 			if err != nil {
 				v.Failf("harness", "%v", err)
 				return
@@ -375,7 +375,9 @@ func run(s Script, v *vt.V) {
 			return digest.FromBytes(referrer(want[i], digest.FromBytes(baseManifest))) < digest.FromBytes(referrer(want[j], digest.FromBytes(baseManifest)))
 		})
 	}
-	wantDigest := func(name string) string { return string(digest.FromBytes(referrer(name, digest.FromBytes(baseManifest)))) }
+	wantDigest := func(name string) string {
+		return string(digest.FromBytes(referrer(name, digest.FromBytes(baseManifest))))
+	}
 
 	// the iterator value is obtained once; a second pass re-iterates the same value
 	var seqS ociregistry.Seq[string]
